@@ -11,7 +11,11 @@
      usend <idx> <hex>              -> datagram hex | panic
      wrecv <side> <hex>             -> panic | bad | toolarge:<idx> | D:<idx>:<hex> | E:<hex>
      hrecv <side> <declared> <hex>  -> toolarge | D:<hex> | error
-     hfixed S<max> <declared> <hex> -> same through the server loop that refuses short bodies *)
+     hfixed S<max> <declared> <hex> -> same through the server loop that refuses short bodies
+     hlim S<max> <declared> <hex>   -> same through the loop that also reads through a limit reader of max+1
+     utransport <idx> <hex>         -> datagram hex | refused | panic      (client conn.Transport + send)
+     ureply <idx> <hex>             -> the server's answer datagram (error frame when it does not fit)
+     cidx udp|sock <counter>        -> the index the client frames for that counter value *)
 open Common
 
 let byte_tab : Byte.byte array =
@@ -129,6 +133,22 @@ let run line =
         | Frame.HDeliver b -> "D:" ^ hex_of_bytes b
         | Frame.HError -> "error")
      | Frame.Client -> failwith "hfixed: server only")
+  | ["hlim"; sd; d; h] ->
+    (match side_of sd with
+     | Frame.Server max ->
+       (match Frame.http_server_recv_limited max (z_of_string d) (bytes_of_hex h) with
+        | Frame.HTooLarge -> "toolarge"
+        | Frame.HDeliver b -> "D:" ^ hex_of_bytes b
+        | Frame.HError -> "error")
+     | Frame.Client -> failwith "hlim: server only")
+  | ["utransport"; i; h] ->
+    (match Frame.udp_transport Frame.coq_UDP_BUFFER (z_of_string i) (bytes_of_hex h) with
+     | Frame.TSent d -> hex_of_bytes d
+     | Frame.TRefused -> "refused"
+     | Frame.TPanic -> "panic")
+  | ["ureply"; i; h] -> hex_of_bytes (Frame.udp_reply Frame.coq_UDP_BUFFER (z_of_string i) (bytes_of_hex h))
+  | ["cidx"; "udp"; c] -> string_of_z (Frame.client_index Frame.coq_UDP_INDEX_MASK (z_of_string c))
+  | ["cidx"; "sock"; c] -> string_of_z (Frame.client_index Frame.coq_SOCK_INDEX_MASK (z_of_string c))
   | _ -> failwith ("c12: bad line: " ^ (if String.length line > 60 then String.sub line 0 60 else line))
 
 let () = register "main" run
